@@ -457,7 +457,7 @@ pub const RECORD_POOL: [(&str, &[&str]); 8] = [
 
 pub fn misplaced_record_texts() -> Vec<String> {
     let mut v = vec![];
-    for lead_mode in [None, Some(1), Some(3)] {
+    for (lead_mode, with_rest) in [(None, true), (Some(1), true), (Some(3), true), (None, false), (Some(3), false)] {
         for (target, _) in RECORD_POOL {
             let mut t = String::from("osu file format v14\n\n");
             if let Some(m) = lead_mode {
@@ -471,7 +471,7 @@ pub fn misplaced_record_texts() -> Vec<String> {
                 }
             }
             for (sec, recs) in RECORD_POOL {
-                if sec == target {
+                if sec == target || !with_rest {
                     continue;
                 }
                 t.push_str(&format!("\n[{sec}]\n"));
